@@ -20,15 +20,19 @@ def table_ops(F):
 
 
 def run(ctx):
+    ctx.rep.not_decided += ['semantics of std HashMap (insert/contains_key) and equality of u32 (trusted)',
+                            'that two distinct flows never share a 32-bit cookie (collisions)']
+    table_discipline(ctx, 'C09')
+
+
+def table_discipline(ctx, pfx):
     F = ctx.facts()
     rep = ctx.rep
-    rep.not_decided += ['semantics of std HashMap (insert/contains_key) and equality of u32 (trusted)',
-                        'that two distinct flows never share a 32-bit cookie (collisions)']
     tcp, table, _ = tcp_table(F)
     rep.saw(tcp, *TABLE_FNS)
 
     # R1: growth operations
-    r1 = rep.rule('C09-R1', 'the connection table is touched only inside proto::tcb::{is_tcb_set,get_tcb,add_tcb}; its only growth operation is one insert in add_tcb behind !contains_key(same key)', floor=3)
+    r1 = rep.rule(pfx + ('-R1' if pfx == 'C09' else '-R6a'), 'the connection table is touched only inside proto::tcb::{is_tcb_set,get_tcb,add_tcb}; its only growth operation is one insert in add_tcb behind !contains_key(same key)', floor=3)
     ops = table_ops(F)
     users = [fid for fid, f in F.fns.items() if f.calls(resolved_re=r'CONTABLE as std::ops::Deref>::deref$')]
     users = [u for u in users if not u.startswith('<proto::tcb::CONTABLE as ')]
@@ -62,7 +66,7 @@ def run(ctx):
     rep.check(r1, n_ins == 1, 'growth-op-count', '%d growth operations on the table crate-wide' % n_ins)
 
     # R2: add_tcb single call site, under the validated fact
-    r2 = rep.rule('C09-R2', 'add_tcb has exactly one call site, in the PSH|ACK arm of tcp::repl, reached only through the false edge of cookie != ack-1 where cookie = generate(client_info, key) of this frame', floor=2)
+    r2 = rep.rule(pfx + ('-R2' if pfx == 'C09' else '-R6b'), 'add_tcb has exactly one call site, in the PSH|ACK arm of tcp::repl, reached only through the false edge of cookie != ack-1 where cookie = generate(client_info, key) of this frame', floor=2)
     callers = F.callers('proto::tcb::add_tcb')
     rep.check(r2, [c for c, _ in callers] == ['layer_4::tcp::repl'], 'add_tcb:callers', 'call sites: %s' % callers)
     heads = collections.defaultdict(list)
@@ -85,7 +89,7 @@ def run(ctx):
                   'key = %s; every path to add_tcb establishes key == (ack-1 mod 2^32): %s' % (short(key_e), not off), tcp.loc(bi))
 
     # R3: no table function elsewhere
-    r3 = rep.rule('C09-R3', 'no connection-table function is reachable from udp/icmp/arp handling, nor on any TCP arm other than PSH|ACK', floor=5)
+    r3 = rep.rule(pfx + ('-R3' if pfx == 'C09' else '-R6c'), 'no connection-table function is reachable from udp/icmp/arp handling, nor on any TCP arm other than PSH|ACK', floor=5)
     for root in ['layer_4::udp::repl', 'layer_4::icmpv4::repl', 'layer_4::icmpv6::repl', 'layer_2::arp::repl']:
         cone = F.cone([root])
         hit = sorted(set(cone) & set(TABLE_FNS))
